@@ -2,7 +2,7 @@
     Property theorems only (proofs: Proofs/ElabProofs.v).  The merge performed at class creation
     (Model/Elab.v, [decorate_namespace_fn]: base groups ++ own group, base postconditions ++ own)
     denotes, in the declarative semantics of Spec/CheckerSpec.v: *)
-From ICV Require Import Base Bind Checker CheckerSpec Elab ElabProofs ElabCase ElabOracle ElabSkeleton.
+From ICV Require Import Base Bind Checker CheckerSpec Elab ElabProofs ElabCase ElabOracle ElabSkeleton ElabHidden.
 Open Scope string_scope.
 Open Scope list_scope.
 
@@ -78,3 +78,14 @@ Theorem C04_oracle_hierarchy_is_the_models ops :
                 = match get_class w k with Some c => co_meta c | None => false end).
 Proof. exact (skeleton_reads_the_same ops). Qed.
 Print Assumptions C04_oracle_hierarchy_is_the_models.
+
+(** The class of the recorded finding D36 - a definer the meta-class does not reach - is empty wherever every class has
+    at most one base: a change that loses inherited contracts in a single-inheritance hierarchy cannot hide there. *)
+Theorem C04_hidden_definer_needs_two_bases decls mro name acc :
+  (forall k d, nth_error decls k = Some d ->
+     (cd_bases d = [] /\ mro k = [k]) \/ (exists b, cd_bases d = [b] /\ b < k /\ mro k = k :: mro b)) ->
+  (forall k, nth_error decls k = None -> mro k = []) ->
+  forall p d m0, nth_error decls p = Some d -> own_member d name acc = Some m0 ->
+  hidden_definers decls mro p name acc = [].
+Proof. exact (single_inheritance_hides_nothing decls mro name acc). Qed.
+Print Assumptions C04_hidden_definer_needs_two_bases.
